@@ -104,3 +104,65 @@ func vBytesRequest() requestPacket {
 	vAssert(pkt != nil && (err == nil || k == 22), "well-formed request decodes")
 	return pkt
 }
+
+// sequences: the worker carries nothing over from one request to the next. A
+// path-based reading request that follows any other request (refused or
+// served) through the same worker invocation is answered exactly as when it
+// comes alone - on a read-only server in particular, "purely reading requests
+// keep working" after a refused attempt to modify (added after seeded change
+// C09-e)
+func vh_C09_sequence() {
+	vErrKinds = 0
+	vTape = nil
+	// a deterministic environment, so that two runs of the same request agree
+	vStatFI = &vFI{name: "p", size: 7, mode: 0o644, mtime: vEpoch}
+	defer func() { vStatFI = nil }()
+	a := vSymRequest(vChoice(vNKinds))
+	id := vNondetU32()
+	var b requestPacket
+	switch vChoice(4) {
+	case 0:
+		b = &sshFxpStatPacket{ID: id, Path: "/p"}
+	case 1:
+		b = &sshFxpLstatPacket{ID: id, Path: "/p"}
+	case 2:
+		b = &sshFxpReadlinkPacket{ID: id, Path: "/p"}
+	default:
+		b = &sshFxpRealpathPacket{ID: id, Path: "/p"}
+	}
+	ro := vNondetBool()
+	run := func(pkts []requestPacket) [][]byte {
+		vEnvReset()
+		svr := vNewServer(ro, "")
+		svr.openFiles["1"] = &vMFile{name: "/o", data: []byte{1, 2, 3}}
+		svr.handleCount = 1
+		ch := make(chan orderedRequest, 4)
+		for _, p := range pkts {
+			op := svr.pktMgr.newOrderedRequest(p)
+			svr.pktMgr.incomingPacket(op)
+			ch <- op
+		}
+		close(ch)
+		err := svr.sftpServerWorker(ch)
+		vAssert(err == nil, "worker continues")
+		var out [][]byte
+		for len(svr.pktMgr.responses) > 0 {
+			r := <-svr.pktMgr.responses
+			out = append(out, vRespBytes(r.(orderedResponse).responsePacket))
+		}
+		if ro {
+			vAssert(vMutations == 0 && vWriteOpen == 0, "read-only server performs no modifying call")
+		}
+		return out
+	}
+	alone := run([]requestPacket{b})
+	after := run([]requestPacket{a, b})
+	vAssert(len(alone) == 1 && len(after) == 2, "one response per request")
+	if len(alone) == 1 && len(after) == 2 {
+		vAssert(vBytesEq(alone[0], after[1]), vKindName(b)+" after "+vKindName(a)+": answered as when it comes alone")
+		if ro {
+			code, isStatus := vStatusCode(after[1])
+			vAssert(!(isStatus && code == sshFxPermissionDenied), "a reading request is not refused")
+		}
+	}
+}
